@@ -53,6 +53,7 @@ type FuncContract struct {
 	Flags    map[string]bool      // opaque (do not inline, use contract), noinline, ...
 	Lemmas   []*Clause
 	Witness  []*Clause
+	CallSites map[string][]*Clause // assertions owed just before this function calls the named callee
 	File     string
 	Line     int
 }
@@ -63,6 +64,7 @@ var frameRe = regexp.MustCompile(`^postcondition\s+\(\*?(\w+)\)\s*(\[[A-Z0-9,]*\
 var defineRe = regexp.MustCompile(`^define\s+(\w+)\(([^)]*)\):\s*(.*)$`)
 var clauseRe = regexp.MustCompile(`^(requires|ensures|lemma|assume|witness|flag)(\[[A-Z0-9,]*\])?\s+([A-Za-z0-9_\-.]+):\s*(.*)$`)
 var loopRe = regexp.MustCompile(`^loop\s+(\d+)\s+(invariant|unroll|exit)(\[[A-Z0-9,]*\])?\s*(?:([A-Za-z0-9_\-.]+):\s*(.*))?$`)
+var callsiteRe = regexp.MustCompile(`^callsite\s+(\w+)\s+requires(\[[A-Z0-9,]*\])?\s+([A-Za-z0-9_\-.]+):\s*(.*)$`)
 var paramRe = regexp.MustCompile(`^param\s+(\w+)\s+(ensures|requires)(\[[A-Z0-9,]*\])?\s+([A-Za-z0-9_\-.]+):\s*(.*)$`)
 
 func parseProps(s string) []string {
@@ -212,6 +214,15 @@ func (w *World) loadContractFile(pkg, file string) error {
 			n, _ := strconv.Atoi(m[1])
 			c := &Clause{Kind: m[2], Props: parseProps(m[3]), Label: m[4], Text: m[5], Loop: n, File: file, Line: i + 1}
 			cur.Loops[n] = append(cur.Loops[n], c)
+			last = c
+			continue
+		}
+		if m := callsiteRe.FindStringSubmatch(txt); m != nil {
+			c := &Clause{Kind: "callsite", Props: parseProps(m[2]), Label: m[3], Text: m[4], Param: m[1], File: file, Line: i + 1}
+			if cur.CallSites == nil {
+				cur.CallSites = map[string][]*Clause{}
+			}
+			cur.CallSites[m[1]] = append(cur.CallSites[m[1]], c)
 			last = c
 			continue
 		}
